@@ -19,7 +19,7 @@ From LV Require Import Model.MichaelList Proofs.MichaelListBase Proofs.MichaelLi
                        Proofs.MichaelListFullProofs.
 From LV Require Model.LazyList Model.IterList Proofs.LazyListDefs Proofs.IterListDefs Proofs.LazyListProofs
                 Proofs.LazyListLinProofs Proofs.IterListRefute Proofs.MichaelListFromModel Proofs.MichaelListFromActs
-                Proofs.MichaelListFromProofs Proofs.ListQuiescent Proofs.LazyListQuiescent.
+                Proofs.MichaelListFromProofs Proofs.ListQuiescent Proofs.LazyListQuiescent Proofs.LazyListFullProofs.
 Import ListNotations.
 Local Open Scope Z_scope.
 
@@ -101,9 +101,7 @@ Print Assumptions C13_lazy_sorted_nodup.
     points: the second store of link_node (insert, inserting update) and the marking store of unlink_node (erase,
     unlink, extract), both executed while the spin locks of predecessor and current node are held and after
     validate() succeeded; each of these operations returns what the specification gives at that point.
-    NOT covered: the position of failed operations and of contains / find / get.  For LazyList that needs helping
-    (a wait-free contains that returns false on a marked node linearizes inside the other thread's marking store),
-    which the "last own observation" argument used for MichaelList cannot express. *)
+    (The full history, reads included, is covered by C13_lazy_linearizable below.) *)
 Theorem C13_lazy_updates_linearizable_partial :
   forall (fuel sf : nat) (ic : bool) (ths : list (list (list Z))) c,
     Conc.reach (LazyList.init_cfg fuel sf ic ths) c ->
@@ -117,6 +115,30 @@ Theorem C13_lazy_updates_history_linearizable :
     linearizable SetSpec (upd_hist (Conc.trace c)).
 Proof. exact LazyListLinProofs.lazy_updates_linearizable_partial'. Qed.
 Print Assumptions C13_lazy_updates_history_linearizable.
+
+(** LazyList, FULL linearizability (reads included), with HELPING (LV.Proofs.LazyListFullInv / FullActs / FullProofs).
+    [full_hist] is the history function of the MichaelList theorems.  Linearization points: the second store of
+    link_node and the marking store of unlink_node for the modifying operations; a failed insert / erase and an update
+    of an existing key: the third load of validate() (both nodes locked, predecessor and current node unmarked and
+    adjacent); contains / find / get: the load of its traversal that finds an unmarked link from a smaller node to a
+    larger one or to m_Tail (absent), or the load of the next field of the node with its key when that value is
+    unmarked (present).  When that value is marked, no access of the reader is a linearization point (the node may
+    have been unlinked and the key re-inserted meanwhile): the reader watches the node from the moment its traversal
+    meets it, and the thread that marks the node linearizes every watching reader right after its own linearization
+    point, in the same step.  For every number of threads, every client program and EVERY schedule. *)
+Theorem C13_lazy_linearizable_lp :
+  forall (fuel sf : nat) (ic : bool) (ths : list (list (list Z))) (c : Conc.config LazyList.G LazyList.V ev),
+    Conc.reach (LazyList.init_cfg fuel sf ic ths) c ->
+    exists atr, lp_valid SetSpec atr /\ erase atr = full_hist (Conc.trace c).
+Proof. exact LazyListFullProofs.lazy_linearizable_lp. Qed.
+Print Assumptions C13_lazy_linearizable_lp.
+
+Theorem C13_lazy_linearizable :
+  forall (fuel sf : nat) (ic : bool) (ths : list (list (list Z))) (c : Conc.config LazyList.G LazyList.V ev),
+    Conc.reach (LazyList.init_cfg fuel sf ic ths) c ->
+    linearizable SetSpec (full_hist (Conc.trace c)).
+Proof. exact LazyListFullProofs.lazy_linearizable. Qed.
+Print Assumptions C13_lazy_linearizable.
 
 (** MichaelList with ANCHORED searches (LV.Proofs.MichaelListFromModel: the list code as cds::intrusive::SplitListSet calls
     it, every search starts at a bucket head): the same model, except that an operation [code; k; x; s] with an anchor
@@ -180,6 +202,25 @@ Theorem C13_mlist_quiescent :
 Proof. exact ListQuiescent.mlist_quiescent. Qed.
 Print Assumptions C13_mlist_quiescent.
 
+(** With the item counter modelled ( atomicity::item_counter, variant 3 ): in a quiescent configuration m_ItemCounter
+    equals the cardinality of the abstract set = the number of unmarked nodes of the chain.  (The counter is updated
+    after the linearization point; LV.Proofs.MichaelListCount: the counter always equals the net number of items
+    that the COMPLETED operations of the history inserted, plus the counter accesses of the operations in progress.) *)
+Theorem C13_mlist_quiescent_count :
+  forall (fuel sf : nat) (ths : list (list (list Z))) c,
+    Conc.reach (MichaelList.init_cfg fuel sf true ths) c ->
+    exists atr S st L,
+      lp_run lp_init atr = Some (S, st) /\ erase atr = full_hist (Conc.trace c) /\
+      list_nodes (Conc.shared c) L /\
+      zsorted (ListQuiescent.live_keys (Conc.shared c) L) /\ NoDup (ListQuiescent.live_keys (Conc.shared c) L) /\
+      (forall k, zmem k S = true <-> In k (ListQuiescent.live_keys (Conc.shared c) L)) /\
+      (ListQuiescent.quiescent_hist (full_hist (Conc.trace c)) ->
+         (forall t, st t = @Idle SetSpec) /\
+         count (Conc.shared c) = Z.of_nat (List.length S) /\
+         count (Conc.shared c) = Z.of_nat (List.length (ListQuiescent.live_keys (Conc.shared c) L))).
+Proof. exact ListQuiescent.mlist_quiescent_count. Qed.
+Print Assumptions C13_mlist_quiescent_count.
+
 Theorem C13_lazy_quiescent :
   forall (fuel sf : nat) (ic : bool) (ths : list (list (list Z))) (c : Conc.config LazyList.G LazyList.V ev),
     Conc.reach (LazyList.init_cfg fuel sf ic ths) c ->
@@ -191,6 +232,20 @@ Theorem C13_lazy_quiescent :
          (forall k, zmem k Sabs = true <-> In k (LazyListDefs.lazy_keys (Conc.shared c)))).
 Proof. exact ListQuiescent.lazy_quiescent. Qed.
 Print Assumptions C13_lazy_quiescent.
+
+Theorem C13_lazy_quiescent_count :
+  forall (fuel sf : nat) (ths : list (list (list Z))) (c : Conc.config LazyList.G LazyList.V ev),
+    Conc.reach (LazyList.init_cfg fuel sf true ths) c ->
+    exists atr Sabs st0,
+      lp_run lp_init atr = Some (Sabs, st0) /\ erase atr = upd_hist (Conc.trace c) /\
+      LazyListDefs.increasing (LazyListDefs.lazy_keys (Conc.shared c)) /\
+      (LazyListQuiescent.quiescent_hist (upd_hist (Conc.trace c)) ->
+         (forall t, st0 t = @Idle SetSpec) /\
+         (forall k, zmem k Sabs = true <-> In k (LazyListDefs.lazy_keys (Conc.shared c))) /\
+         LazyList.count (Conc.shared c) = Z.of_nat (List.length Sabs) /\
+         LazyList.count (Conc.shared c) = Z.of_nat (List.length (LazyListDefs.lazy_keys (Conc.shared c)))).
+Proof. exact ListQuiescent.lazy_quiescent_count. Qed.
+Print Assumptions C13_lazy_quiescent_count.
 
 (** IterableList: the property is FALSE, for the step model LV.Model.IterList (tied to the real code by step
     correspondence) and for the real cds::intrusive::IterableList<gc::HP> (the same programs and schedule are run on
@@ -256,6 +311,7 @@ Example C13_lazy_iter_statements_sample :
   LazyListDefs.increasingb (LazyListDefs.lazy_keys (Conc.shared cl)) = true /\
   LazyListDefs.lazy_keys (Conc.shared cl) = [3] /\
   List.length (upd_hist (Conc.trace cl)) = 10%nat /\ lincheck SetSpec (upd_hist (Conc.trace cl)) = true /\
+  List.length (full_hist (Conc.trace cl)) = 14%nat /\ lincheck SetSpec (full_hist (Conc.trace cl)) = true /\
   LazyListDefs.increasingb (IterListDefs.iter_keys (Conc.shared ci)) = true /\
   IterListDefs.iter_keys (Conc.shared ci) = [3].
 Proof. vm_compute. repeat split; reflexivity. Qed.
